@@ -1,0 +1,110 @@
+//go:build verif
+
+package fasthttp
+
+// C34, closing body streams. Checked by /verif/gocv (comment-only; compiled to nothing).
+//
+// closeBodyStream closes the stream it finds and forgets it, so a second call finds nothing; the writers call it
+// exactly once on every non-panicking path, whether or not the write failed, and a framing decision is made once:
+// fixed size when a non-negative length is known, chunked (with trailer) otherwise.
+
+//@ func Response.closeBodyStream results err
+//@   property C34
+//@   mode skeleton
+//@   ghost closes int = 0
+//@   on call closeBodyStreamReader -> e:
+//@     nohavoc
+//@     requires[stream-present] resp.bodyStream != nil
+//@     effect closes = closes + 1
+//@   end
+//@   ensures[closed-iff-present] closes == (old(resp.bodyStream) != nil ? 1 : 0)
+//@   ensures[forgotten] resp.bodyStream == nil
+
+//@ func Request.closeBodyStream results err
+//@   property C34
+//@   mode skeleton
+//@   ghost closes int = 0
+//@   on call io.Closer.Close -> e:
+//@     nohavoc
+//@     effect closes = closes + 1
+//@   on call releaseRequestStream:
+//@     nohavoc
+//@   end
+//@   ensures[closed-at-most-once] closes <= 1 && (old(req.bodyStream) == nil ==> closes == 0)
+//@   ensures[forgotten] req.bodyStream == nil
+
+//@ func Response.writeBodyStream results err
+//@   property C34 C03
+//@   mode skeleton
+//@   ghost closes int = 0
+//@   ghost fixed int = 0
+//@   ghost chunked int = 0
+//@   ghost headers int = 0
+//@   ghost trailer int = 0
+//@   ghost declared int = -2
+//@   on call ResponseHeader.ContentLength -> n:
+//@     nohavoc
+//@   on call ResponseHeader.SetContentLength(_, n):
+//@     nohavoc
+//@     effect declared = n
+//@   on call limitedReaderSize -> n:
+//@     nohavoc
+//@   on call ResponseHeader.Write -> e:
+//@     nohavoc
+//@     effect headers = headers + 1
+//@   on call bufio.Writer.Flush -> e:
+//@     nohavoc
+//@   on call writeBodyFixedSize(_, _, n) -> e:
+//@     nohavoc
+//@     requires[header-first] headers == 1 && n >= 0
+//@     effect fixed = fixed + 1
+//@   on call writeBodyChunked -> e:
+//@     nohavoc
+//@     requires[header-first-and-chunked-declared] headers == 1 && declared == -1
+//@     effect chunked = chunked + 1
+//@   on call ResponseHeader.writeTrailer -> e:
+//@     nohavoc
+//@     requires[after-chunked-body] declared == -1
+//@     effect trailer = trailer + 1
+//@   on call Response.closeBodyStream -> e:
+//@     nohavoc
+//@     effect closes = closes + 1
+//@   end
+//@   ensures[closed-exactly-once] closes == 1
+//@   ensures[one-framing] fixed + chunked <= 1 && headers == 1
+//@   ensures[no-body-without-sendBody] !sendBody ==> fixed + chunked == 0
+
+//@ func Request.writeBodyStream results err
+//@   property C34
+//@   mode skeleton
+//@   ghost closes int = 0
+//@   ghost fixed int = 0
+//@   ghost chunked int = 0
+//@   ghost headers int = 0
+//@   ghost declared int = -2
+//@   on call RequestHeader.ContentLength -> n:
+//@     nohavoc
+//@   on call RequestHeader.SetContentLength(_, n):
+//@     nohavoc
+//@     effect declared = n
+//@   on call limitedReaderSize -> n:
+//@     nohavoc
+//@   on call RequestHeader.Write -> e:
+//@     nohavoc
+//@     effect headers = headers + 1
+//@   on call writeBodyFixedSize(_, _, n) -> e:
+//@     nohavoc
+//@     requires[header-first] headers == 1 && n >= 0
+//@     effect fixed = fixed + 1
+//@   on call writeBodyChunked -> e:
+//@     nohavoc
+//@     requires[header-first-and-chunked-declared] headers == 1 && declared == -1
+//@     effect chunked = chunked + 1
+//@   on call RequestHeader.writeTrailer -> e:
+//@     nohavoc
+//@   on call Request.closeBodyStream -> e:
+//@     nohavoc
+//@     effect closes = closes + 1
+//@   end
+//@   ensures[closed-exactly-once] closes == 1
+//@   ensures[one-framing] fixed + chunked <= 1 && headers == 1
